@@ -152,8 +152,11 @@ def run(chk):
     # ------------------------------------------------------------------ R3.2
     r2 = chk.rule("R3.2", "&& and || evaluate their right operand only when the left one does not decide; ?: / if evaluate exactly one arm",
                   "short-circuit && and ||, ternary, if/else")
-    evs = {strip_targs(f.get("cls") or "").split("::")[-1]: f for f in prog.fns if f["name"] == "eval_internal" and f["tk"] == "inst" and
-           strip_targs(f.get("cls") or "").startswith("chaiscript::eval::")}
+    evs = {}
+    for want_tk in ("pattern", "inst"):      # instantiations win; a node kind that is no longer built anywhere is still analysed through its pattern
+        for f in prog.fns:
+            if f["name"] == "eval_internal" and f["tk"] == want_tk and strip_targs(f.get("cls") or "").startswith("chaiscript::eval::"):
+                evs[strip_targs(f.get("cls") or "").split("::")[-1]] = f
     for cls, op in (("Logical_And_AST_Node", "&&"), ("Logical_Or_AST_Node", "||")):
         f = evs.get(cls)
         r2.anchor(f is not None, cls + "::eval_internal")
@@ -241,6 +244,45 @@ def run(chk):
     inside = bool(wl) and bool(hb) and any(x is hb[0][0] for x in walk(wl[0].get("body") or {}))
     r3.ob("Switch_AST_Node: Break_Loop is caught per case inside the case loop; Continue_Loop is not caught", inside and not hc, f.where, f["q"],
           "break handler inside the case loop: %s; continue/catch-all handlers: %d" % (inside, len(hc)))
+    # fall-through: once a label has matched, every later case *and default* body runs until a break
+    fl_sw = FnFlow(f)
+    body_evals = []
+    for n in walk(f["body"]):
+        if n.get("k") == "call" and n.get("name") == "eval" and n.get("obj") is not None and "currentCase" in expr_str(prog, f, n["obj"]) and \
+                "children[]0" not in expr_str(prog, f, n["obj"]).replace(" ", "") and not re.search(r"children \[\] 0", expr_str(prog, f, n["obj"])):
+            par = fl_sw.parent(n)
+            if par is not None and par.get("k") in ("block", "if", "try") or True:
+                body_evals.append(n)
+    # the matched-flag: a bool local set to true right after a body evaluation
+    flags = {}
+    for n in walk(f["body"]):
+        if n.get("k") == "assign" and n.get("op") == "=" and strip_casts(n["rhs"]).get("k") == "lit" and strip_casts(n["rhs"]).get("v") is True:
+            t = strip_casts(n["lhs"])
+            if t.get("k") == "ref" and t.get("rk") == "local":
+                flags[t["vid"]] = t.get("name")
+    case_ok = default_ok = False
+    why_sw = []
+    for n in body_evals:
+        facts = list(fl_sw.facts(n))
+        kinds = set()
+        for c, t in facts:
+            for x in walk(c):
+                if x.get("k") == "ref" and x.get("rk") == "enum" and (x.get("q") or "").startswith("chaiscript::AST_Node_Type::") and t:
+                    kinds.add(x["q"].split("::")[-1])
+        mentions_flag = [(expr_str(prog, f, c), t) for c, t in facts if any(x.get("k") == "ref" and x.get("vid") in flags for x in walk(c))]
+        # facts that only concern loop continuation (`!breaking && ...`) are not about the label
+        mentions_flag = [(s_, t) for s_, t in mentions_flag if "currentCase <" not in s_]
+        if "Default" in kinds:
+            default_ok = not mentions_flag
+            if mentions_flag:
+                why_sw.append("the default body is evaluated only under %s" % mentions_flag)
+        elif "Case" in kinds:
+            pos = [s_ for s_, t in mentions_flag if t and "||" in s_]
+            case_ok = case_ok or bool(pos)
+            if not pos:
+                why_sw.append("a case body is not evaluated under `matched-before || label equals`: %s" % mentions_flag)
+    r3.ob("Switch_AST_Node: after a label has matched every following case body and the default body run (fall-through)", case_ok and default_ok and bool(flags), f.where, f["q"],
+          "; ".join(why_sw) or "matched-flag / body evaluations not recognised (flags %s, evaluations %d)" % (sorted(flags.values()), len(body_evals)))
     f = evs.get("File_AST_Node")
     r3.anchor(f is not None, "File_AST_Node::eval_internal")
     okf = 0
@@ -265,7 +307,7 @@ def run(chk):
                             rv.add(strip_targs(g["q"]).split("::")[-1] if "AST_Node" not in g["q"] else strip_targs(g.get("cls") or "").split("::")[-1])
     for need in ("eval_function", "do_eval"):
         r3.ob("%s returns the value carried by Return_Value" % need, need in rv, "", "", "handlers returning rv.retval found in: %s" % sorted(rv))
-    r3.require(9, "obligations")
+    r3.require(10, "obligations")
 
     # ------------------------------------------------------------------ R3.4
     r4 = chk.rule("R3.4", "block-structured constructs evaluate their children inside a scope of their own",
